@@ -11,6 +11,7 @@ FLAVOURS = {
     "dyn": ["-dyn"],
     "faults": ["-faults"],
     "dagrun": ["-dagrun"],
+    "live": ["-live", "30", "-tail", "0"],
 }
 
 def _tool_fingerprint():
